@@ -12,12 +12,14 @@ import NutsModel.C19.Sites
 import NutsModel.C19.Murmur
 import NutsProofs.Lemmas.C19
 import NutsProofs.Lemmas.C19DidWeb
+import NutsProofs.Lemmas.C19HttpCache
 
 namespace Nuts.C19.Props
 open Nuts Nuts.C19 Nuts.C19.Lemmas
 
 /-! ### Obligations on the regenerated facts (a source change flips these) -/
 
+set_option maxRecDepth 8192 in
 /-- the partial operations (unchecked assertions, index/slice expressions, explicit dereferences, discarded errors,
     division by a non-literal, conversions to array pointers, loops, self-recursion, nil guards) of every modelled Go
     function are exactly the expected ones, and every expected panic site is a `Res.panic` site of a model -/
@@ -674,5 +676,73 @@ theorem ambassador_null_guard_needed :
 
 example : Ambassador.handleNetworkEvent Ambassador.Cfg.fixed ⟨true, true, true, false, .ok, true, .ok⟩ = .ok .done := by decide
 example : Ambassador.handleNetworkEvent Ambassador.Cfg.fixed ⟨true, true, true, false, .ok, true, .dbErr⟩ = .ok .retry := by decide
+
+
+/-! ### HTTP response cache (http/client/caching.go): the make-room loop that hung before b991549 -/
+
+theorem fact_httpcache : Sites.httpCacheCfg = HttpCache.Cfg.fixed := by decide
+
+/-- TERMINATION of `for h.head != nil && size+len > max { _ = h.pop() }` WITHOUT fuel: every iteration strictly shortens the
+    expiry list, so from ANY cache state and for ANY body length the loop exits within (length of the list)+1 iterations;
+    the closed form `makeRoom` never reports a hang and ends in a state in which the loop condition is false -/
+theorem httpcache_make_room_terminates (len : Int) (s : HttpCache.St) :
+    (∀ s', HttpCache.step Sites.httpCacheCfg len s = some s' → s'.list.length < s.list.length) ∧
+    HttpCache.iter Sites.httpCacheCfg len (s.list.length + 1) s = none ∧
+    HttpCache.makeRoom Sites.httpCacheCfg len s ≠ .hang ∧
+    (∀ s', HttpCache.makeRoom Sites.httpCacheCfg len s = .done s' → HttpCache.step Sites.httpCacheCfg len s' = none) := by
+  rw [fact_httpcache]
+  refine ⟨fun s' h => hc_step_decreases _ rfl len s s' h, hc_iter_exits _ rfl len _ s (Nat.le_refl _),
+    hc_make_room_no_hang _ rfl len s.max s.list s.index s.cur, fun s' h => (hc_make_room_done _ len s.max s.list s.index s.cur s' h).1⟩
+
+/-- RoundTrip of a GET never hangs in the cache, whatever the cache state, the clock, the URL and the response -/
+theorem httpcache_roundtrip_total (now : Int) (url : String) (fresh : Option HttpCache.Entry) (s : HttpCache.St) :
+    (HttpCache.roundTrip Sites.httpCacheCfg now url fresh s).1 ≠ .hang := by
+  rw [fact_httpcache]
+  unfold HttpCache.roundTrip
+  simp only
+  split
+  · intro h; cases h
+  · split
+    · intro h; cases h
+    · unfold HttpCache.insert
+      split
+      · intro h; cases h
+      · split
+        · rename_i hm
+          exact absurd hm (hc_make_room_no_hang _ rfl _ _ _ _ _)
+        · intro h; cases h
+
+/-- the loop as it was before the repair: on the EMPTY cache a cacheable body of exactly maxBytes makes the loop body a no-op
+    while its condition holds — the state after n iterations is the state before, for every n (it spins for ever, mutex held);
+    so does an over-full cache once its list has been emptied -/
+theorem httpcache_unguarded_loop_spins :
+    (∀ n, HttpCache.iter HttpCache.Cfg.before 5 n (HttpCache.St.empty 5) = some (HttpCache.St.empty 5)) ∧
+    HttpCache.insert HttpCache.Cfg.before ⟨1, "u", 5, 60⟩ (HttpCache.St.empty 5) = .hang ∧
+    HttpCache.insert HttpCache.Cfg.before ⟨2, "v", 10, 60⟩ ⟨[⟨1, "u", 3, 30⟩], [⟨1, "u", 3, 30⟩], 3, 10⟩ = .hang ∧
+    HttpCache.insert HttpCache.Cfg.fixed ⟨1, "u", 5, 60⟩ (HttpCache.St.empty 5) = .done ⟨[⟨1, "u", 5, 60⟩], [⟨1, "u", 5, 60⟩], 5, 5⟩ := by
+  refine ⟨?_, by decide, by decide, by decide⟩
+  intro n
+  induction n with
+  | zero => rfl
+  | succ k ih => unfold HttpCache.iter; exact ih
+
+/-- INVARIANT over ALL reachable cache states (any sequence of GET round trips from the empty cache, any clock, any
+    responses): currentSizeBytes is exactly the sum of the body sizes on the expiry list and never exceeds maxBytes -/
+theorem httpcache_size_invariant (now : Int) (url : String) (fresh : Option HttpCache.Entry) (s s' : HttpCache.St)
+    (h : Inv s) (hr : (HttpCache.roundTrip Sites.httpCacheCfg now url fresh s).1 = .done s') : Inv s' ∧ s'.max = s.max := by
+  unfold HttpCache.roundTrip at hr
+  simp only at hr
+  have hg := hc_removeExpired_inv now s.list s h
+  split at hr
+  · cases hr; exact hg
+  · split at hr
+    · cases hr; exact hg
+    · rename_i e
+      have := hc_insert_inv _ e _ s' hg.1 hr
+      exact ⟨this.1, by rw [this.2]; exact hg.2⟩
+
+example : Inv (HttpCache.St.empty 100) := ⟨rfl, by decide⟩
+example : (HttpCache.roundTrip HttpCache.Cfg.fixed 0 "u" (some ⟨2, "u", 60, 90⟩) ⟨[⟨1, "t", 50, 30⟩], [⟨1, "t", 50, 30⟩], 50, 100⟩).1
+    = .done ⟨[⟨2, "u", 60, 90⟩], [⟨2, "u", 60, 90⟩], 60, 100⟩ := by decide
 
 end Nuts.C19.Props
